@@ -33,12 +33,20 @@ EarlyChi == { k \in 1..Len(preds) : preds[k].name = "kos_chi"
 EarlyPerm == { k \in 1..Len(preds) : preds[k].name = "bucket_perm" /\ preds[k].lprime >= 20 /\ Len(preds[k].vals) >= 16
                 /\ (\E j \in Perms : [i \in 1..Len(probes[j].vals) |-> probes[j].vals[i][1]] = preds[k].vals)
                 /\ preds[k].known_at < TriplesSent }
+\* the test combinations of the first aBit call (probe abit_r: [l, l', first 128 coefficient bits, ...]) against the
+\* prediction from the coin-toss openings; the data under test are the OT correlations: the earliest OT matrix
+ABitRs == { k \in 1..Len(probes) : probes[k].name = "abit_r" }
+FirstMatrix == MinSeq({ datas[k].seq : k \in { j \in 1..Len(datas) : datas[j].ph = "ALSZ_OT_setup" } })
+EarlyABit == { k \in 1..Len(preds) : preds[k].name = "abit_r0"
+                 /\ (\E j \in ABitRs : Len(probes[j].vals) >= 3 /\ probes[j].vals[3] = preds[k].val)
+                 /\ preds[k].known_at < FirstMatrix }
 Reused == { k \in Chis : \E j \in Chis : j < k /\ probes[j].name = probes[k].name /\ probes[j].p = probes[k].p
                                           /\ probes[j].vals = probes[k].vals }
 
 EndViol ==
   (IF EarlyChi # {} THEN { "the first KOS check coefficient is determined by the coin-toss openings before the OT matrix is sent" } ELSE {})
   \cup (IF EarlyPerm # {} THEN { "the bucket permutation of the leaky AND triples is determined before the triples are computed and sent" } ELSE {})
+  \cup (IF EarlyABit # {} THEN { "the aBit test combinations are determined by the coin-toss openings before the OT correlations under test exist" } ELSE {})
   \cup (IF Reused # {} THEN { "the same KOS check coefficient is used again by a later check (pairwise stream re-cloned per aBit call)" } ELSE {})
 SetToSeq(S) == LET RECURSIVE F(_) F(T) == IF T = {} THEN << >> ELSE LET x == CHOOSE y \in T : TRUE IN << x >> \o F(T \ {x}) IN F(S)
 
